@@ -124,9 +124,57 @@ Definition d_session_spec (a : val) : val :=
                           (map as_event (as_list (arg a 7))) cur (as_ending (arg a 9)) in
   VL [vstr (fst r); VI (snd r)].
 
+(* spec-level delimiter: [] AWK | [0, sep] literal | [1, set, run] one byte of the set / a maximal run of them *)
+Definition as_field_delim (v : val) : field_delim :=
+  match as_list v with
+  | [] => FAwk
+  | t :: x :: r => if as_int t =? 0 then FStr (as_str x)
+                   else FSet (as_str x) (match r with y :: _ => as_bool y | [] => false end)
+  | _ => FAwk
+  end.
+(* spec-level --accept-nth, the user's pairs as they are (same encoding as for the model, no new_range) *)
+Definition as_fexprs (v : val) : list fexpr := map (fun p => (as_int (arg p 0), as_int (arg p 1))) (as_list v).
+Definition as_tpart (v : val) : tpart :=
+  let t := as_int (arg v 0) in
+  if t =? 0 then TLit (as_str (arg v 1)) else if t =? 1 then TIndex else TFields (as_fexprs (arg v 1)).
+Definition as_accept_expr (v : val) : option accept_expr :=
+  match as_list v with
+  | t :: x :: _ => Some (if as_int t =? 0 then AFields (as_fexprs x) else ATemplate (map as_tpart (as_list x)))
+  | _ => None
+  end.
+
+(* 705: session spec with --accept-nth in general.  [print0, print_query, expect, ansi, records, strip_tbl, limit,
+   events, current(-1 = none), ending, query, key, field_delim, accept_expr] -> [stdout, code] *)
+Definition d_session_spec_fields (a : val) : val :=
+  let records := as_strs (arg a 4) in
+  let strip := tbl_lookup (as_tbl (arg a 5)) in
+  let ansi := as_bool (arg a 3) in
+  let d := as_field_delim (arg a 12) in
+  let acc := as_accept_expr (arg a 13) in
+  let present := fun i =>
+    let s := shown ansi strip (nth i records []) in
+    match acc with
+    | None => s
+    | Some e => accept_text d e i s
+    end in
+  let cur := let c := as_int (arg a 8) in if c <? 0 then None else Some (Z.to_nat c) in
+  let r := session_result (terminator (as_bool (arg a 0))) (as_bool (arg a 1)) (as_str (arg a 10))
+                          (as_bool (arg a 2)) (as_str (arg a 11)) present (as_nat (arg a 6))
+                          (map as_event (as_list (arg a 7))) cur (as_ending (arg a 9)) in
+  VL [vstr (fst r); VI (snd r)].
+
+(* 706: what --accept-nth prints for one record.  [field_delim, accept_expr, index, output form] -> text *)
+Definition d_accept_text (a : val) : val :=
+  match as_accept_expr (arg a 1) with
+  | Some e => vstr (accept_text (as_field_delim (arg a 0)) e (as_nat (arg a 2)) (as_str (arg a 3)))
+  | None => vstr (as_str (arg a 3))
+  end.
+
 Definition dispatch_output (op : Z) (a : val) : option val :=
   if op =? 701 then Some (d_filter a)
   else if op =? 702 then Some (d_filter_spec a)
   else if op =? 703 then Some (d_interactive a)
   else if op =? 704 then Some (d_session_spec a)
+  else if op =? 705 then Some (d_session_spec_fields a)
+  else if op =? 706 then Some (d_accept_text a)
   else None.
